@@ -16,6 +16,9 @@ import (
 type dumper struct {
 	b    strings.Builder
 	ptrs map[uintptr]int
+	// elemInt, if set, renders integers that are direct elements of slices / arrays.
+	elemInt func(int64) string
+	inElem  bool
 	// MaxDepth guards against pathological graphs.
 	depth int
 }
@@ -23,6 +26,14 @@ type dumper struct {
 // String dumps v.
 func String(v any) string {
 	d := &dumper{ptrs: map[uintptr]int{}}
+	d.value(reflect.ValueOf(v))
+	return d.b.String()
+}
+
+// StringElems dumps v, rendering every integer that is a direct element of a slice or array with
+// elemInt (used to renumber payloads of containers: sound by parametricity of generic containers).
+func StringElems(v any, elemInt func(int64) string) string {
+	d := &dumper{ptrs: map[uintptr]int{}, elemInt: elemInt}
 	d.value(reflect.ValueOf(v))
 	return d.b.String()
 }
@@ -64,7 +75,11 @@ func (d *dumper) value(v reflect.Value) {
 	case reflect.Bool:
 		d.b.WriteString(strconv.FormatBool(v.Bool()))
 	case reflect.Int, reflect.Int8, reflect.Int16, reflect.Int32, reflect.Int64:
-		d.b.WriteString(strconv.FormatInt(v.Int(), 10))
+		if d.inElem && d.elemInt != nil {
+			d.b.WriteString(d.elemInt(v.Int()))
+		} else {
+			d.b.WriteString(strconv.FormatInt(v.Int(), 10))
+		}
 	case reflect.Uint, reflect.Uint8, reflect.Uint16, reflect.Uint32, reflect.Uint64, reflect.Uintptr:
 		d.b.WriteString(strconv.FormatUint(v.Uint(), 10))
 	case reflect.Float32, reflect.Float64:
@@ -99,7 +114,10 @@ func (d *dumper) value(v reflect.Value) {
 				d.b.WriteString(" ")
 			}
 			d.b.WriteString(v.Type().Field(i).Name + ":")
+			was := d.inElem
+			d.inElem = false
 			d.value(v.Field(i))
+			d.inElem = was
 		}
 		d.b.WriteString("}")
 	case reflect.Slice:
@@ -117,7 +135,10 @@ func (d *dumper) value(v reflect.Value) {
 			if i > 0 {
 				d.b.WriteString(" ")
 			}
+			was := d.inElem
+			d.inElem = true
 			d.value(v.Index(i))
+			d.inElem = was
 		}
 		d.b.WriteString("]")
 	case reflect.Map:
